@@ -48,6 +48,7 @@ type CfgObs struct {
 	Accepted   bool    `json:"accepted"`   // ValidateNodeGroup reported no problem (YAML-decoded)
 	AcceptedJ  bool    `json:"acceptedJson"`
 	Problems   int     `json:"problems"`
+	PairOK     bool    `json:"pairOK"` // in a two-group document the second, sparse group decodes to exactly what it says (YAML and JSON)
 	// key records
 	Key      string `json:"key"`
 	Honoured bool   `json:"honoured"`
@@ -108,6 +109,16 @@ func runCfgCase(c CfgCase) CfgObs {
 	}
 	o.SameDecode = reflect.DeepEqual(y[0], j[0])
 	o.AsIntended = c.intended(y[0]) && c.intended(j[0])
+	o.PairOK = true
+	sparseY := "  - name: \"second\"\n    min_nodes: 7\n"
+	sparseJ := ", {\"name\": \"second\", \"min_nodes\": 7}]}"
+	want := controller.NodeGroupOptions{Name: "second", MinNodes: 7}
+	if y2, err := controller.UnmarshalNodeGroupOptions(strings.NewReader(c.yaml() + sparseY)); err != nil || len(y2) != 2 || !reflect.DeepEqual(y2[1], want) || !reflect.DeepEqual(y2[0], y[0]) {
+		o.PairOK = false
+	}
+	if j2, err := controller.UnmarshalNodeGroupOptions(strings.NewReader(strings.TrimSuffix(c.json(), "]}") + sparseJ)); err != nil || len(j2) != 2 || !reflect.DeepEqual(j2[1], want) || !reflect.DeepEqual(j2[0], j[0]) {
+		o.PairOK = false
+	}
 	py := controller.ValidateNodeGroup(y[0])
 	pj := controller.ValidateNodeGroup(j[0])
 	o.Accepted, o.AcceptedJ, o.Problems = len(py) == 0, len(pj) == 0, len(py)
